@@ -128,8 +128,9 @@ def check_get(sc, g, ob):
     copies = g["copies"]
     down = set(g.get("down", []))
     exp = set(g.get("expired", []))
-    # what the read can obtain: the owner's own copy, and every reachable remote copy that is not expired
-    cand = [(i, copies[i]) for i in range(4) if copies[i] and i not in down and not (i != 0 and i in exp)]
+    # what the read has to look at: the copy of every reachable holder, whether its deadline has passed or not (C06: "a read
+    # returns the copy with the newest timestamp"; D48: a remote holder used to hide its expired copy, so an older copy won)
+    cand = [(i, copies[i]) for i in range(4) if copies[i] and i not in down]
     if ob["res"] not in ("ok", "notfound"):
         return "Get failed with %s (%s)" % (ob["res"], ob.get("err"))
     if not cand:
@@ -137,15 +138,17 @@ def check_get(sc, g, ob):
             return "Get returned %r although no reachable holder has a copy" % ob.get("val")
     else:
         mx = max(ts for _, ts in cand)
+        newest = [i for i, ts in cand if ts == mx]
         if ob["res"] == "ok":
             if ob["ts"] != mx:
-                return "Get returned the copy with timestamp %d, the newest reachable copy has %d" % (ob["ts"], mx)
-            if ob["val"] not in [val_of(i, ts) for i, ts in cand if ts == mx]:
+                return "Get returned the copy with timestamp %d, the newest reachable copy has %d%s" % (
+                    ob["ts"], mx, " (its deadline has passed: the key is absent)" if all(i in exp for i in newest) else "")
+            if ob["val"] not in [val_of(i, mx) for i in newest]:
                 return "Get returned %r which is not one of the newest copies" % ob["val"]
-        elif not exp:
-            return "Get returned %s although copies %s are reachable" % (ob["res"], cand)
-        elif not any(i in exp for i, ts in cand if ts == mx):
-            return "Get returned %s although the newest copy is not expired" % ob["res"]
+            if all(i in exp for i in newest):
+                return "Get returned %r although the deadline of every newest copy has passed" % ob["val"]
+        elif not any(i in exp for i in newest):
+            return "Get returned %s although the newest copy (holders %s, timestamp %d) is not expired" % (ob["res"], newest, mx)
     if 0 in exp:
         return None       # the owner's expired copy is evicted cluster-wide within ~100 ms: the copies after the read are a race
     # copies after the read
@@ -165,12 +168,12 @@ def check_get(sc, g, ob):
         return "read-repair on: the owner's copy after the read is %s, the winner is %s" % (after[0], win)
     if (before[0] is None or before[0][1] != win[1]) and after[0] != win:
         return "read-repair on: the owner's stale copy became %s, the winner is %s" % (after[0], win)
-    # every reachable backup copy (an expired copy is not a copy the read can see)
+    # every reachable backup copy, expired or not
     for i in (2, 3):
         s = 2 * i + 1
-        if i in down or (i in exp):
+        if i in down:
             if after[s] != before[s]:
-                return "an unreachable / expired backup copy changed: %s -> %s" % (before[s], after[s])
+                return "an unreachable backup copy changed: %s -> %s" % (before[s], after[s])
             continue
         if before[s] is None:
             continue
